@@ -2,10 +2,36 @@
 
 package gitinterface
 
+import (
+	"time"
+
+	"github.com/jonboulle/clockwork"
+)
+
+type verifHookClock struct {
+	clockwork.Clock
+	f func()
+}
+
+func (h *verifHookClock) Now() time.Time {
+	if h.f != nil {
+		f := h.f
+		h.f = nil
+		f()
+	}
+	return h.Clock.Now()
+}
+
 // Export shims for the /verif correspondence harness (add-only, guarded by the verif tag).
 
 // VerifSignGitObject signs contents with a PEM encoded SSH or GPG key, as
 // CommitUsingSpecificKey / TagUsingSpecificKey do.
 func VerifSignGitObject(contents, pemKeyBytes []byte) (string, error) {
 	return signGitObjectUsingKey(contents, pemKeyBytes)
+}
+
+// VerifSetNowHook makes the repository's clock call f once, the next time Now() is read (Commit
+// reads it between reading the reference tip and creating/compare-and-setting the commit).
+func VerifSetNowHook(r *Repository, f func()) {
+	r.clock = &verifHookClock{Clock: r.clock, f: f}
 }
